@@ -82,6 +82,8 @@ IDEAS[10] = ("TWO COOPERATING SITES: both A and B must this time consist of two 
              "with other keyword arguments) - a single call on a fresh object must still behave correctly. " + IDEAS[7])
 EXCLUDED[10] = (EXCLUDED[9] + ", no views returned by to_compact() / position, no IterationResult object reuse, no isdigit() id filters, no "
                 "tag-anywhere-in-line matching, no fast paths for identity rotations or zero residuals")
+IDEAS[11] = IDEAS[8]
+EXCLUDED[11] = EXCLUDED[10]
 os.makedirs(pdir, exist_ok=True)
 for p in props:
     pid = p['id']
